@@ -4,6 +4,8 @@ from ..terms import TermBuilder
 from .C09 import const_name
 
 REQUIRES = ['sskr']
+USES_QUERIES = True
+USES_KNOWN_VALUES = True
 EXPLANATION = (
     "FLOW/GUARD rules. C11.1 split: secret = SSKRSecret::new(data(content key)); shares = sskr_generate_using(spec, secret, rng); every "
     "returned envelope = add_assertion(self, 'sskrShare', share) for a share drawn from the nested loops over ALL groups and ALL members "
